@@ -29,6 +29,11 @@ type verifWitness struct {
 	Values  map[string]verifWVal ` + "`json:\"values\"`" + `
 	Choices map[string]int       ` + "`json:\"choices\"`" + `
 	JSON    map[string]string    ` + "`json:\"json\"`" + `
+	Preempts []verifPreempt      ` + "`json:\"preempts\"`" + `
+}
+type verifPreempt struct {
+	Site string ` + "`json:\"site\"`" + `
+	Occ  int    ` + "`json:\"occ\"`" + `
 }
 type verifEvent struct {
 	Kind  string ` + "`json:\"kind\"`" + `
@@ -52,7 +57,32 @@ var (
 	verifCur   *verifWitness
 	verifOcc   map[string]int
 	verifTrace []verifEvent
+	verifSPCnt map[string]int
 )
+
+// verifSP is called by the instrumented copy of the library (sched confirmation binary only) before every
+// synchronisation operation: the goroutine whose operation the engine preempted is held here for a while,
+// so that the other goroutines run first, as in the schedule the engine found.
+func verifSP(site string) {
+	verifMu.Lock()
+	if verifSPCnt == nil {
+		verifSPCnt = map[string]int{}
+	}
+	verifSPCnt[site]++
+	n := verifSPCnt[site]
+	hold := false
+	if verifCur != nil {
+		for _, p := range verifCur.Preempts {
+			if p.Site == site && p.Occ == n {
+				hold = true
+			}
+		}
+	}
+	verifMu.Unlock()
+	if hold {
+		time.Sleep(60 * time.Millisecond)
+	}
+}
 
 type verifAssumeFailed struct{}
 
@@ -185,6 +215,7 @@ func verifRunOne(fn func(), w *verifWitness) (run verifRun) {
 	verifCur = w
 	verifOcc = map[string]int{}
 	verifTrace = nil
+	verifSPCnt = map[string]int{}
 	verifMu.Unlock()
 	done := make(chan string, 1)
 	go func() {
